@@ -53,7 +53,7 @@ def lossless(d):
 
 @st.composite
 def cases(draw, tier):
-    root = draw(st.sampled_from(["program"] * 10 + ["nn.Linear", "uu.Linear", "uu.Linear", "sequential"]))
+    root = draw(st.sampled_from(["program"] * 10 + ["nn.Linear", "nn.Linear", "uu.Linear", "uu.Linear", "sequential", "sequential", "nested-sequential"]))
     c = dict(root=root, fwd=draw(fmt_st()), bwd=draw(fmt_st()), seed=draw(st.integers(0, 10**6)), via=draw(st.sampled_from(["simulate_format"] * 4 + ["simulate_fp8"])))
     if draw(st.integers(0, 4)) == 0:
         c["fwd"] = dict(name="E8M23", rounding=draw(st.sampled_from(["nearest", "stochastic"])), srbits=0)
@@ -122,13 +122,15 @@ def run(c) -> CaseResult:
             m = nn.Linear(h, h, bias=c["bias"])
         elif c["root"] == "uu.Linear":
             m = uu.Linear(h, h, bias=c["bias"])
+        elif c["root"] == "nested-sequential":
+            m = nn.Sequential(nn.Sequential(nn.Linear(h, h, bias=c["bias"]), nn.ReLU()), nn.Linear(h, h, bias=not c["bias"]))
         else:
             m = nn.Sequential(nn.Linear(h, h, bias=c["bias"]), nn.Tanh(), uu.Linear(h, h, bias=c["bias"]))
         g = torch.Generator().manual_seed(c["seed"])
         shape = [2, 3, 2, h][-c["rank"]:]
         inputs = dict(x=torch.randn(shape, generator=g))
         src = repr(m)
-        n_q = 2 if c["root"] == "sequential" else 1
+        n_q = 2 if c["root"] in ("sequential", "nested-sequential") else 1
 
         def reference(P, inp, mode):
             x = inp["x"]
@@ -136,10 +138,12 @@ def run(c) -> CaseResult:
                 return mode.linear({}, x, P["weight"], P.get("bias"))
             if c["root"] == "uu.Linear":
                 return mode.ulinear({}, x, P["weight"], P.get("bias"))
+            if c["root"] == "nested-sequential":
+                return mode.linear({}, torch.relu(mode.linear({}, x, P["0.0.weight"], P.get("0.0.bias"))), P["1.weight"], P.get("1.bias"))
             y = mode.linear({}, x, P["0.weight"], P.get("0.bias"))
             return mode.ulinear({}, torch.tanh(y), P["2.weight"], P.get("2.bias"))
     ftag = "+".join(feats) or "plain"
-    if c["root"] in ("nn.Linear", "sequential"):
+    if c["root"] in ("nn.Linear", "sequential", "nested-sequential"):
         # is the transform applied at all?  (root class defined in torch.nn)
         captured = []
 
@@ -391,7 +395,7 @@ CHECK = Check(
            Part("primitives", run_prim, strategy=prim_cases, budget={"quick": 400, "thorough": 6000})],
     rule=("programs: Hypothesis-generated modules (depth 1-12; linear with bias positional / omitted / keyword / all-keyword / nn.Linear, "
           "attention with mask positional or keyword / causal / dropout_p=0, U.linear / U.linear_readout / U.scaled_dot_product_attention, "
-          "elementwise ops, norms, adds, reshapes; roots: program module, bare nn.Linear, bare uu.Linear, nn.Sequential; inputs of rank 2-4) "
+          "elementwise ops, norms, adds, reshapes; roots: program module, the program behind an nn.Sequential, bare nn.Linear, bare uu.Linear, nn.Sequential, nested nn.Sequential; inputs of rank 2-4) "
           "x format pairs from {E4M3,E5M2,E3M2,E5M10,E2M1,E8M23} with nearest or stochastic rounding (random source pinned by a substituted "
           "torch.randint that is a pure function of shape). Oracle: reference interpreter with straight-through quantisation written by hand "
           "using the caller's format objects - outputs and every gradient bit-equal; lossless E8M23 == untransformed module bit for bit; "
